@@ -193,6 +193,9 @@ def compare(lg, S, result, want):
         return 'hash type packed with %r' % fmt
     if not (w == 4 and order == '<' and rng and rng[0] <= 0 and rng[1] >= 255 and src == lg.p_ht):
         return 'hash type appended as %r of `%s`, consensus: four little-endian bytes of the hash type' % (fmt, src)
+    if rng[0] >= 0:
+        # the consensus hash type is a signed 32-bit integer (the reference vectors use negative ones)
+        return 'hash type appended as %r: an unsigned field refuses the negative hash types, for which the consensus algorithm defines a digest (the type is a signed 32-bit integer)' % (fmt,)
     st = els[0][1]
     for k in ('own.scriptSig', 'others.scriptSig', 'own.nSequence', 'others.nSequence', 'own.prevout', 'others.prevout', 'wit', 'nVersion', 'nLockTime'):
         if st.get(k) != want[k]:
